@@ -11,7 +11,7 @@ pub fn prop() -> Prop {
     Prop {
         id: "C15",
         level: "model_checking",
-        rule: "values = 30 (all types, absent, empty string, strings with quote, comma, CR, LF, tab, blanks at both ends, non-ASCII, strings spelled like keywords and numbers, 64-bit and fractional numbers, nested values holding such strings); csv: every row of 1..2 selections (3 selections: quick a slice of 2 700 rows, thorough all 27 000) over the values x 4 sets of selection names (plain; with blank, comma, quote; non-ASCII; two selections sharing a name) and multi-record inputs; rows of 5 selections with a field of 15..8192 characters (quote, comma, line break or non-ASCII at the far end; long nested cells) in each column in turn; 100 and 1000 records in one run; text: every row of 1..2 selections over 24 values with an unambiguous spelling x every option set within 3 deviations of the defaults (thorough: the full product of 7 776 option sets) over items separator(4), string prefix/postfix(3), null/true/false keywords(3,2,2), missing-value keyword(3), --headers(2), escape sequences(3), row separator(3); non-trivial = the row holds a string with a special character, a nested value, an absent value or a keyword look-alike; distinct by construction",
+        rule: "values = 30 (all types, absent, empty string, strings with quote, comma, CR, LF, tab, blanks at both ends, non-ASCII, strings spelled like keywords and numbers, 64-bit and fractional numbers, nested values holding such strings); csv: every row of 1..2 selections (3 selections: quick a slice of 2 700 rows, thorough all 27 000) over the values x 4 sets of selection names (plain; with blank, comma, quote; non-ASCII; two selections sharing a name) and multi-record inputs; rows of 5 selections with a field of 15..8192 characters (quote, comma, line break or non-ASCII at the far end; long nested cells) in each column in turn; 100 and 1000 records in one run; text: every row of 1..2 selections over 24 values with an unambiguous spelling x every option set within 3 deviations of the defaults (thorough: the full product of 7 776 option sets) over items separator(4), string prefix/postfix(3), null/true/false keywords(3,2,2), missing-value keyword(3), --headers(2), escape sequences(5, two of them with a replacement that contains a character another sequence escapes), row separator(3); non-trivial = the row holds a string with a special character, a nested value, an absent value or a keyword look-alike; distinct by construction",
         explanation: "csv output is read back by an independent RFC 4180 reader (skip-initial-space): header = the names in order, N fields per record, each field recovered by type (string content, decimal spelling by exact value, True/False/null, concise JSON re-read by the strict reader and free of insignificant whitespace); text output is compared byte for byte with the rendering the option help pins (prefix + escaped characters + postfix, keywords, separators)",
         assumptions: COMMON_ASSUMPTIONS.to_vec(),
         guards: vec!["long-fields", "quote-in-string", "comma-in-string", "newline-in-string", "absent-field", "nested-with-special-string", "header-with-special-name", "escape-sequence-applied", "missing-keyword-printed", "text-headers", "three-fields"],
@@ -273,7 +273,7 @@ struct TextOpts {
     row: &'static str,
 }
 
-const DIMS: [usize; 9] = [4, 3, 3, 2, 2, 3, 2, 3, 3];
+const DIMS: [usize; 9] = [4, 3, 3, 2, 2, 3, 2, 5, 3];
 
 fn opts_of(ix: &[usize]) -> TextOpts {
     let (prefix, postfix) = [("", ""), ("'", "'"), ("<", ">>")][ix[1]];
@@ -286,7 +286,15 @@ fn opts_of(ix: &[usize]) -> TextOpts {
         fals: ["false", "no"][ix[4]],
         missing: [None, Some("-"), Some("N/A")][ix[5]],
         headers: ix[6] == 1,
-        escapes: [vec![], vec![('\t', "\\t"), ('\n', "\\n")], vec![('\'', "\\'"), (',', "\\,"), (';', "")]][ix[7]].clone(),
+        escapes: [
+            vec![],
+            vec![('\t', "\\t"), ('\n', "\\n")],
+            vec![('\'', "\\'"), (',', "\\,"), (';', "")],
+            // the replacement of one sequence contains the character another one escapes (each character is escaped once)
+            vec![(',', "\\,"), ('\\', "\\\\")],
+            vec![('\\', "\\\\"), (',', "\\,"), ('a', ",a")],
+        ][ix[7]]
+        .clone(),
         row: ["\n", "\r\n", "\n---\n"][ix[8]],
     }
 }
